@@ -44,7 +44,7 @@ OPS = ("fit", "fit", "fit", "transform", "inverse", "query", "compute", "seriali
 
 def required(tier):
     return {
-        "mon": ["answers_compared", "inputs_immutability_checked", "refits", "failpoint:injected", "failpoint:refit_after_fault", "failpoint:injected_in_transform"],
+        "mon": ["answers_compared", "inputs_immutability_checked", "refits", "failpoint:injected", "failpoint:refit_after_fault", "failpoint:injected_in_transform", "bootstrapper_refits"],
         "cover": [f"cls:{c}" for c in CLASSES] + ["cfg:raw_weights", "op:rotate", "op:bootstrap", "op:badfit", "op:serialize", "op:compute", "op:transform_other", "op:intfit", "op:inttrans"],
     }
 
@@ -59,6 +59,9 @@ def cases(tier, seed):
                 i += 1
         out.append(dict(cls=cls, ops=[["fit", 0], ["rotate", 0], ["bootstrap", 0], ["serialize", 0], ["compute", 0], ["fit", 1]], dseed=7))
         out.append(dict(cls=cls, ops=[["fit", 2], ["transform_other", 1], ["badfit", 0], ["fit", 0], ["transform", 0], ["inverse", 0]], dseed=8))
+        out.append(dict(cls=cls, ops=[["fit", 0], ["transform_other", 1], ["query", 0], ["fit", 1], ["transform_other", 0], ["inverse", 0]], dseed=9))  # dseed % 3 == 0: MultiIndex samples
+        if cls == "EOF":
+            out.append(dict(cls=cls, ops=[["fit", 0], ["bootstrap", 0], ["bootstrap", 0], ["fit", 1], ["bootstrap", 0]], dseed=10))
         # configuration in which the preprocessing chain starts with the user's own object
         # (no centring / standardising copy in front of the weights): the hostile case for input immutability
         out.append(dict(cls=cls, cfg="raw_weights", ops=[["fit", 0], ["transform", 0], ["fit", 1], ["fit", 3], ["transform", 3]], dseed=9))
@@ -107,6 +110,15 @@ def _pool(case, cplx, cross, nviews=1):
         M = M + rng.standard_normal(p)
         return xu.make_da(M, fshape, fdims, sample_coords=np.arange(t0, t0 + n))
 
+    mi_samples = bool(case["dseed"] % 3 == 0) and not nviews > 1
+
+    def with_mi(d, t0):
+        """pool members 0 and 1 with the sample dimension indexed by a (year, month) MultiIndex (every third case)"""
+        import pandas as pd
+
+        mi = pd.MultiIndex.from_product([np.arange(2000 + t0, 2000 + t0 + d.sizes["time"] // 3), [1, 2, 3]], names=("year", "month"))
+        return d.drop_vars("time").assign_coords(xr.Coordinates.from_pandas_multiindex(mi, "time"))
+
     pool = []
     for idx in range(4):
         views = []
@@ -121,6 +133,8 @@ def _pool(case, cplx, cross, nviews=1):
                 a = field(16, (3,), ("u",), 10)
                 b = field(16, (2, 2), ("lat", "lon"), 10)
                 d = xr.Dataset({"va": a, "vb": b}) if (v == 0 and not cplx) else [a, b]
+            if mi_samples and idx in (0, 1):
+                d = with_mi(d, 0 if idx == 0 else 100)
             views.append(d)
         pool.append(views)
     return pool
@@ -319,6 +333,7 @@ def run_case(case, obs):
         hist = []
         npoints = {}
         pending_fault = None
+        aged_bs = None
         for step, o in enumerate(case["ops"]):
             op, j = o[0], o[1]
             hist.append(f"{op}{j}" + (f"@{o[2]}" if len(o) > 2 else ""))
@@ -473,6 +488,15 @@ def run_case(case, obs):
                     bs = xe.validation.EOFBootstrapper(n_bootstraps=3, seed=1)
                     bs.fit(model)
                     _model_still_usable(obs, model, tags)
+                    # the bootstrapper is an object with a history of its own: one instance is reused for every
+                    # bootstrap operation of the case and must answer like the fresh one above
+                    if aged_bs is None:
+                        aged_bs = xe.validation.EOFBootstrapper(n_bootstraps=3, seed=1)
+                    else:
+                        obs.count("bootstrapper_refits")
+                    aged_bs.fit(model)
+                    for key in ("explained_variance", "components", "scores"):
+                        _cmp_obj(obs, f"bootstrapper_refit:{key}", aged_bs.data[key], bs.data[key], dict(tags, symptom="answer_differs_from_fresh_fit", answer="bootstrapper." + key))
             finally:
                 obs.count("inputs_immutability_checked")
                 obs.check(
